@@ -283,7 +283,8 @@ STUBS = [
     ("refuse-special", lambda b, r: b["success"] and b["cfg"]["path"] in ("dev_null", "dev_stdout"), "exit"),
     ("drop-missing", lambda b, r: b["cfg"]["why"] in ("missing2", "missing3") and b["cfg"]["path"] != "unwritable", "errors-missing"),
     ("lose-bytes", lambda b, r: b["success"] and b["cfg"]["why"] in ("longline", "longline_nl") and b["cfg"]["mode"] == "stdout", "bytes-differ"),
-    ("run-skip", lambda b, r: b["cfg"]["mode"] == "run" and b["cfg"]["std"] and b["eff"] in ("acc", "rt"), "run-output"),
+    # (accepted programs only: for a program that fails at run time the emptied stdout also loses the error, a different verdict)
+    ("run-skip", lambda b, r: b["cfg"]["mode"] == "run" and b["cfg"]["std"] and b["eff"] == "acc", "run-output"),
     # stdout / stderr written through a second, truncating opening of the object behind the descriptor
     ("reopen-stdout", lambda b, r: b["success"] and b["cfg"]["mode"] == "stdout" and b["cfg"]["io"] in ("append", "shared"), "stdout-disturbed"),
     ("reopen-stdout", lambda b, r: b["cfg"]["io"] == "shared" and r["world"]["so"]["len"] > r["world"]["so"]["pre_len"] + r["world"]["so"]["post_len"],
